@@ -231,6 +231,19 @@ def rand_layout(rng, kind=None, big=False, known_ok=True):
     return kind, entries, req
 
 
+def huge_snappy_job(rng):
+    """one snappy batch of 39..43 KiB of incompressible values, framed as a single xerial chunk or in blocks above 32 KiB
+    (32 KiB is only the default block size of the usual writer; the format allows any)"""
+    offs = Offs(rng, rng.choice([0, 7, 1 << 33]))
+    inner = [("plain", offs.take(), None if rng.random() < 0.5 else b"k%d" % i, bytes(rng.getrandbits(8) for _ in range(rng.randint(13200, 14500))))
+             for i in range(3)]
+    entries = [("wrap", "snappy", inner[-1][1], inner)]
+    req = rng.choice([inner[0][1], inner[1][1], inner[-1][1]])
+    chunk = rng.choice([None, None, 39000, 49152])
+    data, lens = encode_layout(entries, chunk, False)
+    return ("huge_snappy", entries, req, len(data), chunk, False)
+
+
 def sample_cut(rng, lens):
     total = sum(lens)
     if total == 0 or rng.random() < 0.4:
@@ -417,7 +430,7 @@ def gen(rng, tier):
     for i in range(0, len(jobs), 108):
         cases.append(scripted_case(rng, jobs[i:i + 108], per_fetch=9))
     # (b) random layouts
-    for _ in range(1100 if quick else 9000):
+    for ci in range(1100 if quick else 9000):
         jobs = []
         known_ok = rng.random() < 0.35         # layouts of the known class are concentrated in a third of the cases
         for _ in range(rng.randint(10, 40)):
@@ -427,6 +440,8 @@ def gen(rng, tier):
             copies = rng.random() < 0.4
             data, lens = encode_layout(entries, chunk, copies)
             jobs.append(admit(rng, (kind, entries, req, sample_cut(rng, lens), chunk, copies)))
+        if ci % 16 == 5 and ci < (16 * 3 if quick else 16 * 24):     # (the model's snappy decoder is slow on chunks of this size: a handful per run)
+            jobs.insert(rng.randint(0, len(jobs)), huge_snappy_job(rng))
         cases.append(scripted_case(rng, jobs))
     # (c) the reference broker's own replies
     for _ in range(200 if quick else 1500):
